@@ -2551,6 +2551,11 @@ int set_call (object_t * ob, sentence_t * sent, int flags) {
 
   ob->interactive->input_to = sent;
   ob->interactive->iflags |= (flags & (I_NOECHO | I_NOESC | I_SINGLE_CHAR));
+  /* Text typed ahead was judged by the rules of line mode when it arrived. In
+   * single-character mode whatever is buffered is a command: look again, or the user is
+   * not served until the next byte arrives. */
+  if ((flags & I_SINGLE_CHAR) && cmd_in_buf (ob->interactive))
+    ob->interactive->iflags |= CMD_IN_BUF;
 
   if (ob->interactive == all_users[0])
     {
